@@ -619,6 +619,7 @@ def _scanner(rep, M, src):
                 ext.append(callee)
     scopes = [(h, Func("dlde", None, h.name, h)) for h in helpers] + [(c.node, c) for c in ext] + [(fn.node, fn)]
     returns_progress = {}
+    stuck_reported = []
     for node, f in scopes:
         whiles = [n for n in ast.walk(node) if isinstance(n, ast.While) and (node is not fn.node or n in loops_outer)]
         # (a) taint: find() results must be compared against -1 (or a position) before they are used arithmetically
@@ -664,7 +665,15 @@ def _scanner(rep, M, src):
                     if newv[0] == "sub" and newv[1][0] in ("call", "calldyn") and newv[2] == ("c", 0):
                         # position returned by the helper: -1 or a value after at least one strictly increasing update
                         hname = str(newv[1][1])
-                        if returns_progress.get(hname.split(".")[-1]):
+                        hp_ = returns_progress.get(hname.split(".")[-1])
+                        if hp_ is True:
+                            progressed = True
+                        elif isinstance(hp_, tuple) and hp_[0] == "stuck" and len(newv[1]) > 2 and len(newv[1][2]) > hp_[1] and newv[1][2][hp_[1]] == entry and not stuck_reported:
+                            stuck_reported.append(hname)
+                            bad += 1
+                            rep.violation("R2", f"dlde.DataSet.parse_data_block.{hname.split('.')[-1]}", "helper-returns-position-unchanged",
+                                          f"a path of {hname.split('.')[-1]}() hands the scan position it was given back unchanged, and the calling loop at line {wl.lineno} calls it again with the same "
+                                          "arguments: the parser never returns for the inputs that take this path", file, hp_[2], witness=hp_[3][:240])
                             progressed = True
                 stuck = False
                 if not progressed:
@@ -684,7 +693,7 @@ def _scanner(rep, M, src):
                                   "a path through the scanning loop reaches the next iteration without advancing the scan position: the parser never returns for some input", file, wl.lineno, witness=conds)
         if node is not fn.node:
             # helper summary: its first return value is -1 or a position that went through >= 1 strictly increasing update
-            returns_progress[node.name] = _helper_progress(node)
+            returns_progress[node.name] = _helper_progress(node, M)
     if not bad:
         rep.ok("R2", f"{n_loops} scanner loops", "no unchecked find() result reaches a scan position; every path that re-enters a loop has strictly advanced the position (helper returns -1 or an advanced position)")
     rep.floor("scanner loops", n_loops, 2)
@@ -795,12 +804,18 @@ def _strictly_greater(newv, oldv, p, E=None, f=None):
     return Order(p, E, f).gt(newv, oldv)
 
 
-def _helper_progress(h):
-    """the helper returns (pos if values else -1, ...): values is appended in the same loop body that advances pos"""
+def _helper_progress(h, M=None):
+    """the helper returns (pos if values else -1, ...): values is appended in the same loop body that advances pos.  Every return of the helper must have
+    that form (or return -1); a return that hands back the position parameter unchanged is reported as ("stuck", parameter index, line, path conditions):
+    the caller calls again with the same arguments, and a function of its arguments gives the same answer for ever."""
     rets = [n for n in ast.walk(h) if isinstance(n, ast.Return) and n.value is not None]
+    n_ok = 0
     for r in rets:
         v = r.value
         first = v.elts[0] if isinstance(v, ast.Tuple) and v.elts else v
+        if isinstance(first, ast.UnaryOp) and isinstance(first.op, ast.USub) and isinstance(first.operand, ast.Constant) and first.operand.value == 1:
+            n_ok += 1
+            continue
         if isinstance(first, ast.IfExp) and isinstance(first.orelse, ast.UnaryOp) and isinstance(first.orelse.operand, ast.Constant) and first.orelse.operand.value == 1 \
                 and isinstance(first.test, ast.Name) and isinstance(first.body, ast.Name):
             lst, pos = first.test.id, first.body.id
@@ -811,7 +826,21 @@ def _helper_progress(h):
                     # append happens before the advance in the same straight-line body => non-empty list implies an advanced position
                     ap_top = [s for s in wl.body if any(x is appends[0] for x in ast.walk(s))]
                     if ap_top and wl.body.index(ap_top[0]) < wl.body.index(assigns[0]):
-                        return True
+                        n_ok += 1
+                        break
+    if rets and n_ok == len(rets):
+        return True
+    if M is not None and n_ok:
+        params = [a.arg for a in h.args.args]
+        try:
+            for p in Engine(M, inline_depth=0).run(Func("dlde", None, h.name, h)):
+                if p.status == "return" and isinstance(p.ret, tuple):
+                    first = p.ret[1][0] if p.ret[0] == "tuple" and p.ret[1] else p.ret
+                    if isinstance(first, tuple) and len(first) == 2 and first[0] == "p" and first[1] in params:
+                        line = max([g[2] for g in p.guards] or [h.lineno])
+                        return ("stuck", params.index(first[1]), line, "; ".join(("" if pol else "not ") + show_sv(g)[:60] for g, pol, _ in p.guards))
+        except Exception:  # noqa - outside E-PATH: not proven
+            pass
     return False
 
 
